@@ -188,7 +188,7 @@ def run_harness(h, m):
         import traceback as _tb
         tb = _tb.extract_tb(e.__traceback__)
         where = f"{tb[-1].filename.split('/')[-1]}:{tb[-1].lineno}" if tb else "?"
-        if any("/repo/" in fr.filename for fr in tb) or m.sym is False:
+        if any("/fastavro/" in fr.filename for fr in tb) or m.sym is False:
             m.prove("unexpected_exception", False, f"{type(e).__name__}: {e} at {where}")
         else:
             raise
@@ -426,24 +426,34 @@ class E1Runner:
             return
         nvalid[0] += 1
         self.run.sample(dict(harness=self.cur_prefix, witness=vals))
-        # a concrete failure on a path the solver called clean is an engine defect,
-        # unless the obligation is already reported violated/known
+        # A concrete failure on this path's witness (an input produced by the solver for this path) is a
+        # reproduced violation of the obligation, whatever the symbolic side concluded on the path (it may have
+        # stopped early at an unsupported operation).  It goes through the ordinary replay/known-findings route.
         for (name, what) in cm.failures:
-            s = self.st.get(name)
-            if s is None or (not s["viol"] and not s["inc"] and not s.get("known")):
-                self.st.setdefault(name, dict(n=0, viol=None, inc=None, known=set()))["inc"] = (
-                    f"engine validation: concrete run disagrees with the symbolic verdict at {vals}")
+            s = self.st.setdefault(name, dict(n=0, viol=None, inc=None, known=set()))
+            if s["viol"]:
+                continue
+            full = f"{self.cur_prefix}.{name}"
+            key = self.key(name, vals) if self.key else full
+            if key in s["known"]:
+                continue
+            verdict = self._replay(name, vals, what + " (found on a path witness)", key)
+            if verdict == "violated":
+                s["viol"] = verdict
+                s["what"] = f"{what} values={vals}"
+            elif verdict == "known":
+                s["known"].add(key)
+                s["what"] = f"{what} values={vals}"
+            else:
+                s["inc"] = f"engine validation: concrete run fails but the replay script does not: {vals}"
 
 
 def _worker(pid, tier, seed, spec):
     from .report import Run
-    import io as _io
-    import contextlib
     import os
     os.environ["VF_E1_WORKER"] = "1"
     run = Run(pid, tier, seed)
     r = E1Runner(run)
-    buf = _io.StringIO()
     # INCONCLUSIVE lines are re-printed by the parent; VIOLATION / KNOWN-FINDING lines go straight to stdout
     r.check(**spec)
     return dict(obl=run.obl, states=run.states, transitions=run.transitions, solver_s=run.solver_s,
@@ -454,7 +464,7 @@ def _worker(pid, tier, seed, spec):
 REPLAY_TMPL = '''# replay of a solver-found counterexample: runs the harness in concrete mode
 # against the unmodified modules under /repo with real io.BytesIO streams.
 import sys, json, os
-sys.path[:0] = [os.environ.get("VF_ROOT", "/verif"), "/repo"]
+sys.path[:0] = [os.environ.get("VF_ROOT", "/verif"), os.environ.get("VF_REPO", "/repo")]
 from vf.e1 import replay_main
 sys.exit(replay_main({harness!r}, json.loads({vals!r}), {ob!r}, {full!r}, {what!r}))
 '''
